@@ -280,14 +280,17 @@ def run_real(args):
         os.makedirs(dest)
         n, d = 10, 3
         fc = 1000
-        if window == "frac":
+        t_base = 1394333998
+        if window in ("frac", "frac2300"):
             # 100 ms files; the window is given as plain decimal timestamps falling on file names
             n, d, fc = 100, 1, 100
-        cfg = rf.Cfg(n=n, d=d, fc=fc, sc=2, start=md.first_of_ts(1394333998, n, d), cont=(mode == "cont"))
+        if window == "frac2300":
+            t_base = 10413792000  # 2300-01-01: file times beyond 2^33 s, where a double no longer holds every millisecond exactly
+        cfg = rf.Cfg(n=n, d=d, fc=fc, sc=2, start=md.first_of_ts(t_base, n, d), cont=(mode == "cont"))
         chdir = os.path.join(src, "ch0")
         os.makedirs(os.path.join(chdir, "metadata"))
         w = rf.open_writer(drf, chdir, cfg)
-        if window == "frac":
+        if window in ("frac", "frac2300"):
             w.rf_write(rf.make_values(cfg, seed, cfg["start"], 140))
             w.rf_write(rf.make_values(cfg, seed, cfg["start"] + 200, 90), 200)
         else:
@@ -303,6 +306,10 @@ def run_real(args):
             s_ms = 1394333998 * 1000 + 300
             e_ms = 1394333999 * 1000 + 100
             argv += ["-s", "%d.%d" % (s_ms // 1000, s_ms % 1000 // 100), "-e", "%d.%d" % (e_ms // 1000, e_ms % 1000 // 100)]
+        elif window == "frac2300":
+            s_ms = t_base * 1000 + 300
+            e_ms = (t_base + 1) * 1000 + 200
+            argv += ["-s", iso(s_ms), "-e", iso(e_ms)]
         elif window:
             s_ms = (1394333998 + 2) * 1000
             e_ms = (1394333998 + 7) * 1000
@@ -310,6 +317,21 @@ def run_real(args):
         listed = None
         if window:
             listed = sorted(os.path.relpath(p_, src) for p_ in drf.lsdrf(src, starttime=T.from_ms(s_ms), endtime=T.from_ms(e_ms)))
+        if window == "frac2300":
+            # here the expectation is computed from the file names themselves (exact integers), not by the listing
+            import re as _re
+
+            by_name = []
+            for r_, d_, fs_ in os.walk(src):
+                for f_ in fs_:
+                    m_ = _re.match(r"^rf@(\d+)\.(\d{3})\.h5$", f_)
+                    if m_ and s_ms <= int(m_.group(1)) * 1000 + int(m_.group(2)) <= e_ms:
+                        by_name.append(os.path.relpath(os.path.join(r_, f_), src))
+            if sorted(p_ for p_ in listed if os.path.basename(p_).startswith("rf@")) != sorted(by_name):
+                part["violations"].append(core.Violation({"class": "real_listing_window_by_name", "cmd": cmd}, case,
+                                                         "lsdrf selects %s, by file name the window holds %s" % (
+                                                             [os.path.basename(p_) for p_ in listed if "rf@" in p_][:3] + ["..."], [os.path.basename(p_) for p_ in sorted(by_name)][:3] + ["..."])))
+            listed = sorted(set(p_ for p_ in listed if not os.path.basename(p_).startswith("rf@")) | set(by_name))
         rs = drf.DigitalRFReader(src)
         b = rs.get_bounds("ch0")
         src_blocks = {k: v.tobytes() for k, v in rs.read(b[0], b[1], "ch0").items()}
@@ -391,7 +413,7 @@ def main(tier):
     jobs = jobs[rot:] + jobs[:rot]
     for part in core.pmap(run_tree, jobs, chunksize=1):
         chk.merge(part)
-    real = [(m, c, w) for m in ("gapped", "cont") for c in ("cp", "mv", "ln", "lnsym") for w in (False, True, "frac")]
+    real = [(m, c, w) for m in ("gapped", "cont") for c in ("cp", "mv", "ln", "lnsym") for w in (False, True, "frac")] + [("gapped", "cp", "frac2300"), ("gapped", "mv", "frac2300")]
     for part in core.pmap(run_real, real, chunksize=1):
         chk.merge(part)
     return chk.finish()
